@@ -175,12 +175,15 @@ def oracles(ctx, deep):
 
     rng = ctx.rng
 
-    def check(sm, what, cfg, coil_dim=1):
+    def check(sm, what, cfg, coil_dim=1, signal=None):
         if not bool(torch.isfinite(sm).all()):
             add(Violation("maps-finite", "%s contains NaN/Inf for %s" % (what, cfg), {"config": cfg, "stage": what}, {"stage": what, "kind": "nonfinite"}))
             return
         s = (sm ** 2).sum(-1).sum(coil_dim)
         bad = ~((s - 1).abs() < 1e-4) & ~(s == 0)
+        if signal is not None and bool(((s == 0) & signal).any()):
+            # zero is only allowed where there is no signal
+            add(Violation("maps-normalised", "%s: the map is zero at %d locations where the autocalibration image has signal, for %s" % (what, int(((s == 0) & signal).sum()), cfg), {"config": cfg, "stage": what}, {"stage": what, "kind": "zero-on-signal"}))
         if bool(bad.any()):
             add(Violation("maps-normalised", "%s: sum over coils of squared magnitudes is neither 1 nor 0 at %d locations (e.g. %.6g) for %s" % (what, int(bad.sum()), float(s[bad][0]), cfg), {"config": cfg, "stage": what, "example": float(s[bad][0])}, {"stage": what, "kind": "sum"}))
 
@@ -204,18 +207,25 @@ def oracles(ctx, deep):
             acs[:] = True
         elif acs_kind == "center":
             acs[..., sp[-1] // 2 - 1 : sp[-1] // 2 + 1, :] = True
-        sigma = rng.choice([None, None, 0.5, 2.0])
+        sigma = rng.choice([None, None, 0.5, 2.0, 0, 0.0])  # 0 means "no weighting", like None
         cfg = {"coils": coils, "spatial": sp, "scale": scale, "acs": acs_kind, "gaussian_sigma": sigma}
         runs += 1
         try:
             for tp in (M.SensitivityMapType.RSS_ESTIMATE, M.SensitivityMapType.UNIT):
                 mod = M.EstimateSensitivityMapModule(kspace_key="kspace", backward_operator=T.ifft2, type_of_map=tp, gaussian_sigma=sigma)
                 sm = mod({"kspace": k.clone(), "acs_mask": acs})["sensitivity_map"]
-                check(sm, "EstimateSensitivityMapModule(%s)" % tp.value, cfg)
+                signal = None
+                if tp == M.SensitivityMapType.RSS_ESTIMATE and not sigma and scale >= 1e-6:
+                    dim = mod.spatial_dims.TWO_D if k.ndim == 5 else mod.spatial_dims.THREE_D
+                    img = T.ifft2(k * acs, dim=dim)
+                    rss = (img**2).sum(-1).sum(1).sqrt()
+                    signal = rss > 1e-3 * float(rss.max()) if float(rss.max()) > 0 else None
+                check(sm, "EstimateSensitivityMapModule(%s)" % tp.value, cfg, signal=signal)
                 if tuple(sm.shape) != tuple(k.shape):
                     add(Violation("maps-shape", "sensitivity map shape %s differs from k-space %s" % (list(sm.shape), list(k.shape)), {"config": cfg}, {"stage": "shape"}))
             if not three:
-                raw = torch.randn(1, coils, *sp, 2, generator=g) * rng.choice([1.0, 1e-8, 1e4])
+                # including magnitudes whose squares underflow: the coil norm is then exactly zero, the entries are not
+                raw = torch.randn(1, coils, *sp, 2, generator=g) * rng.choice([1.0, 1e-8, 1e4, 1e-25, 1e-30])
                 if rng.random() < 0.3:
                     raw[:, :, : sp[0] // 2] = 0
                 check(eng.compute_sensitivity_map(raw), "MRIModelEngine.compute_sensitivity_map", cfg)
